@@ -359,11 +359,34 @@ class NpProxy:
         return call
 
 
+import operator as _op
+_BINOPS = {"add": _op.add, "subtract": _op.sub, "multiply": _op.mul, "divide": _op.truediv,
+           "true_divide": _op.truediv, "power": _op.pow, "floor_divide": _op.floordiv,
+           "less": _op.lt, "less_equal": _op.le, "greater": _op.gt, "greater_equal": _op.ge,
+           "equal": _op.eq, "not_equal": _op.ne, "mod": _op.mod, "remainder": _op.mod}
+
+
+def _symscalar(x):
+    return isinstance(x, Sym) or type(x).__name__ == "Q"
+
+
 class _UfuncWrap:
     def __init__(self, uf):
         self.uf = uf
 
     def __call__(self, *a, **k):
+        name = self.uf.__name__
+        if not k and len(a) == 2 and name in _BINOPS and (_symscalar(a[0]) or _symscalar(a[1])) \
+                and not isinstance(a[0], _np.ndarray) and not isinstance(a[1], _np.ndarray):
+            return _BINOPS[name](a[0], a[1])
+        if not k and len(a) == 1 and _symscalar(a[0]):
+            m = getattr(a[0], name, None)
+            if m is not None:
+                return m()
+            if name == "negative":
+                return -a[0]
+            if name in ("absolute", "fabs"):
+                return abs(a[0])
         if len(a) == 1 and isinstance(a[0], Sym) and not k:
             m = getattr(a[0], self.uf.__name__, None)
             if m is not None:
